@@ -57,6 +57,28 @@ pub fn emit_struct_once(
     result.push_str(&emit_struct(r#struct));
 }
 
+/// Emits the structs of the same file that the methods of `interface` name and that have not
+/// been emitted yet: a struct may be declared after the interface that uses it.
+pub fn emit_structs_used_by(
+    interface: &idlc_mir::Interface,
+    local: &[String],
+    emitted: &mut Vec<String>,
+    result: &mut String,
+) {
+    for node in &interface.nodes {
+        if let idlc_mir::InterfaceNode::Function(function) = node {
+            for param in &function.params {
+                if let idlc_mir::Type::Struct(s) = param.r#type() {
+                    let s = s.as_ref();
+                    if local.contains(&s.ident.to_string()) {
+                        emit_struct_once(s, local, emitted, result);
+                    }
+                }
+            }
+        }
+    }
+}
+
 /// The names of the structs that `mir`'s own file declares.
 pub fn local_structs(mir: &idlc_mir::Mir) -> Vec<String> {
     mir.nodes
